@@ -12,32 +12,55 @@
 namespace bat {
 using namespace nifly;
 
-inline void f32(std::string& o, float f) {
+inline std::string vf_hex(uint64_t v) { char b[20]; snprintf(b, sizeof b, "%016llx", (unsigned long long) v); return b; }
+
+// Output sink: either canonical text (snapshots that get compared / shown) or a running hash only
+// (fault-enumeration workloads, where only "did it survive" and a cheap outcome id matter).
+struct Out {
+	bool text = true;
+	std::string s;
+	uint64_t h = 1469598103934665603ull;
+	void mix(const void* p, size_t n) {
+		auto c = (const unsigned char*) p;
+		for (size_t i = 0; i < n; i++) { h ^= c[i]; h *= 1099511628211ull; }
+	}
+	Out& operator+=(const std::string& t) { if (text) s += t; else mix(t.data(), t.size()); return *this; }
+	Out& operator+=(const char* t) { if (text) s += t; else mix(t, strlen(t)); return *this; }
+	Out& operator+=(char c) { if (text) s += c; else mix(&c, 1); return *this; }
+};
+inline void f32(Out& o, float f) {
 	uint32_t u;
 	memcpy(&u, &f, 4);
+	if (!o.text) { o.mix(&u, 4); return; }
 	char b[16];
 	snprintf(b, sizeof b, "%08x ", u);
-	o += b;
+	o.s += b;
 }
-inline void v3(std::string& o, const Vector3& v) { f32(o, v.x); f32(o, v.y); f32(o, v.z); }
-inline void xf(std::string& o, const MatTransform& t) {
+inline void v3(Out& o, const Vector3& v) { f32(o, v.x); f32(o, v.y); f32(o, v.z); }
+inline void xf(Out& o, const MatTransform& t) {
 	v3(o, t.translation);
 	for (int r = 0; r < 3; r++) v3(o, t.rotation[r]);
 	f32(o, t.scale);
 }
-inline void u(std::string& o, unsigned long long v) { o += std::to_string(v); o += ' '; }
+inline void u(Out& o, unsigned long long v) {
+	if (!o.text) { o.mix(&v, 8); return; }
+	o.s += std::to_string(v);
+	o.s += ' ';
+}
 
 struct Opt {
 	bool index_free = true;
 	bool bounds = true;		 // include bounding spheres
 	bool heavy = true;		 // per-vertex arrays, weights
 	bool reachable_only = false; // only nodes / shapes reachable from the root (what a pruning save keeps)
+	bool hash_only = false;		 // do not render text, only hash what the queries return
 	bool lazy_getters = true;	 // include getters that fill caches / triangulate partition strips (GetShapePartitions)
 	size_t max_items = 1u << 20;
 };
 
-inline std::string shape_text(NifFile& nif, NiShape* shape, const Opt& opt) {
-	std::string o;
+inline Out shape_out(NifFile& nif, NiShape* shape, const Opt& opt) {
+	Out o;
+	o.text = !opt.hash_only;
 	auto& hdr = nif.GetHeader();
 	o += "shape '" + shape->name.get() + "' type=" + shape->GetBlockName() + "\n";
 	o += " nv="; u(o, shape->GetNumVertices());
@@ -155,9 +178,14 @@ inline std::string shape_text(NifFile& nif, NiShape* shape, const Opt& opt) {
 	}
 	return o;
 }
+inline std::string shape_text(NifFile& nif, NiShape* shape, const Opt& opt) {
+	Out o = shape_out(nif, shape, opt);
+	return o.text ? o.s : vf_hex(o.h);
+}
 
 inline std::string model_text(NifFile& nif, const Opt& opt = Opt()) {
-	std::string o;
+	Out o;
+	o.text = !opt.hash_only;
 	auto& hdr = nif.GetHeader();
 	o += "valid="; u(o, nif.IsValid()); o += "unknown="; u(o, nif.HasUnknown()); o += "terrain="; u(o, nif.IsTerrain());
 	o += "ver='" + hdr.GetVersion().GetVersionInfo() + "'\n";
@@ -196,8 +224,8 @@ inline std::string model_text(NifFile& nif, const Opt& opt = Opt()) {
 	for (auto n : nodes) {
 		if (k++ >= opt.max_items) break;
 		if (opt.reachable_only && !reach.count(n)) continue;
-		parts.emplace_back();
-		std::string& o = parts.back();
+		Out o;
+		o.text = !opt.hash_only;
 		o += "node '" + n->name.get() + "' " + n->GetBlockName() + " ";
 		xf(o, n->GetTransformToParent());
 		if (auto p = nif.GetParentNode(n)) o += "parent='" + p->name.get() + "' ";
@@ -208,6 +236,7 @@ inline std::string model_text(NifFile& nif, const Opt& opt = Opt()) {
 		o += "children="; u(o, nif.GetChildren<NiObject>(n, true).size()); u(o, nif.GetChildren<NiNode>(n).size()); u(o, nif.GetChildren<NiShape>(n).size());
 		if (!opt.index_free) { o += "id="; u(o, nif.GetBlockID(n)); o += nif.GetNodeName(nif.GetBlockID(n)); }
 		o += "\n";
+		parts.push_back(o.text ? o.s : vf_hex(o.h));
 	}
 	if (opt.index_free) std::sort(parts.begin(), parts.end());
 	for (auto& p : parts) o += p;
@@ -256,7 +285,7 @@ inline std::string model_text(NifFile& nif, const Opt& opt = Opt()) {
 		if (!opt.index_free) { hdr.IsBlockReferenced(i); hdr.GetBlockRefCount(i); }
 	}
 	(void) nrefs; (void) nptrs; (void) nstr; (void) nidx; // exercised, not part of the logical content
-	return o;
+	return o.text ? o.s : vf_hex(o.h);
 }
 
 } // namespace bat
